@@ -222,6 +222,7 @@ def run_reader(case, ctx):
                                                    "shuffled"),
                                  f"{what}: example id {i}")
             ctx.count("reads")
+            ctx.evaluated()
             rel = "T<S" if t < s_total else ("T=S" if t == s_total else "T>S")
             ctx.label(rel)
             if t != s_total or skew or r["drop"] is not None:
